@@ -463,7 +463,8 @@ def rule_L6(ctx):
     r.require_floor("stdout write sites", len(sites), 1)
     for f, p, loc in sites:
         r.inst("%s calls %s" % (f.path, p))
-        if f.module.startswith("builtins") and p == "std::io::_print":
+        import anchors
+        if p == "std::io::_print" and (anchors.is_builtin_fn(f) or f.module.startswith("builtins")):
             r.ok()
         else:
             r.fail("%s | stdout-writer callee=%s" % (f.path, p),
